@@ -26,6 +26,7 @@ DEFAULT_KINDS = (
     ("list-coerced", "[Int]", "3", [3]),
     ("object", "In", "{f: 1}", {"f": 1}),
     ("id", "ID", "5", "5"),
+    ("object-nested", "In", "{f: 1, other: {}}", {"f": 1, "other": {}}),
 )
 
 
@@ -38,6 +39,8 @@ def base_record(opts):
     qname = "RootQ" if o["schema_def"] else "Query"
     mname = "RootM" if o["schema_def"] else "Mutation"
     label, dtype, dlit, dval = DEFAULT_KINDS[o["default"]]
+    if label == "object-nested":
+        o["recursion"] = max(o["recursion"], 2)         # the nested input type In2 must exist
     has = lambda bit: bool(o["present"] >> bit & 1)   # noqa: E731
     rec = {"order": [], "types": {}, "directives": {}, "roots": {"query": qname, "mutation": mname if o["mutation"] else None, "subscription": None},
            "schema_def": o["schema_def"]}
@@ -87,7 +90,8 @@ def base_record(opts):
         add("In", {"kind": "input", "desc": d("input"), "fields": infields})
         if o["recursion"] >= 2:
             infields.append({"name": "other", "type": "In2", "default": None, "desc": None})
-            add("In2", {"kind": "input", "desc": None, "fields": [{"name": "back", "type": "In", "default": None, "desc": None}]})
+            add("In2", {"kind": "input", "desc": None, "fields": [{"name": "back", "type": "In", "default": None, "desc": None},
+                                                                  {"name": "lim", "type": "Int", "default": ("9", 9), "desc": None}]})
         qfields.append({"name": "i", "type": "Int", "args": [{"name": "in", "type": "In", "default": None, "desc": None}], "desc": None, "dep": None})
     if has(4):
         add("Date", {"kind": "scalar", "desc": d("a date")})
@@ -203,20 +207,30 @@ def base_only(rec, split):
     return r
 
 
+def _fill_input_defaults(rec, type_expr, v):
+    """an input-object default picks up the defaults of the fields declared in THIS record, recursively"""
+    base = type_expr.strip("[]!")
+    t = rec["types"].get(base)
+    if isinstance(v, list):
+        inner = type_expr.rstrip("!")
+        inner = inner[1:-1] if inner.startswith("[") else inner
+        return [_fill_input_defaults(rec, inner, x) for x in v]
+    if not (isinstance(v, dict) and t and t["kind"] == "input"):
+        return v
+    out = {}
+    for f in t["fields"]:
+        if f["name"] in v:
+            out[f["name"]] = _fill_input_defaults(rec, f["type"], v[f["name"]])
+        elif f.get("default"):
+            out[f["name"]] = f["default"][1]
+    return out
+
+
 def _coerced_default(rec, a):
-    """declared default coerced to its declared type; an input-object default picks up the defaults of the fields In declares in THIS record"""
+    """declared default coerced to its declared type"""
     if not a.get("default"):
         return None
-    v = a["default"][1]
-    if isinstance(v, dict) and a["type"].strip("[]!") == "In" and "In" in rec["types"]:
-        v = dict(v)
-        for f in rec["types"]["In"]["fields"]:
-            if f["name"] not in v and f.get("default"):
-                v[f["name"]] = f["default"][1]
-            if f["name"] not in [x["name"] for x in rec["types"]["In"]["fields"]]:
-                v.pop(f["name"], None)
-        v = {k: x for k, x in v.items() if k in [f["name"] for f in rec["types"]["In"]["fields"]]}
-    return ("default", v)
+    return ("default", _fill_input_defaults(rec, a["type"], a["default"][1]))
 
 
 def normal(rec):
